@@ -73,10 +73,15 @@ Inductive fop :=
 | OCreate (p:path)                        (* os.Create: truncate / create empty *)
 | OAppend (p:path) (b:bytes)              (* sequential write; may stop after any prefix when interrupted or failing *)
 | OWriteAt0 (p:path) (b:bytes)            (* one pwrite at offset 0, assumed atomic (127 bytes) *)
-| ORename (src dst:path).                 (* atomic *)
+| ORename (src dst:path)                  (* atomic *)
+| OTruncate (p:path) (n:nat)              (* set the length, zero filled (sync) *)
+| OPwrite (p:path) (o:nat) (b:bytes).     (* write at an offset; may stop after any prefix (sync) *)
 Definition overwrite0 (old new:bytes) : bytes := (new ++ skipn (List.length new) old)%list.
+Definition pwrite (o:nat) (b old:bytes) : bytes := (firstn o old ++ b ++ skipn (o + List.length b) old)%list.
 Definition run_op (f:fs) (o:fop) : fs :=
   match o with
+  | OTruncate p n => match fs_get p f with Some old => fs_set p (firstn n old ++ repeat 0%N (n - List.length old)) f | None => f end
+  | OPwrite p o b => match fs_get p f with Some old => fs_set p (pwrite o b old) f | None => f end
   | OCreate p => fs_set p [] f
   | OAppend p b => match fs_get p f with Some old => fs_set p (old ++ b) f | None => f end
   | OWriteAt0 p b => match fs_get p f with Some old => fs_set p (overwrite0 old b) f | None => f end
@@ -90,6 +95,7 @@ Fixpoint crash_states (f:fs) (ops:list fop) : list fs :=
        | o :: r =>
          (match o with
           | OAppend p b => map (fun n => run_op f (OAppend p (firstn n b))) (seq 0 (List.length b))
+          | OPwrite p o b => map (fun n => run_op f (OPwrite p o (firstn n b))) (seq 0 (List.length b))
           | _ => [] end)
          ++ crash_states (run_op f o) r
        end.
@@ -107,6 +113,9 @@ Fixpoint run_limited (L:nat) (f:fs) (ops:list fop) : fs :=
     end
   end.
 Definition header_edit_ops (archive:path) (hdr:bytes) : list fop := [OWriteAt0 archive hdr].
+(* sync: everything is written into FILE.tmp, then renamed over the archive *)
+Definition sync_ops (archive tmp:path) (target:nat) (writes:list (nat * bytes)) : list fop :=
+  [OCreate tmp; OTruncate tmp target] ++ map (fun w => OPwrite tmp (fst w) (snd w)) writes ++ [ORename tmp archive].
 Definition metadata_edit_ops (archive tmp:path) (hdr root meta leaves tiles:bytes) : list fop :=
   [OCreate tmp; OAppend tmp hdr; OAppend tmp root; OAppend tmp meta; OAppend tmp leaves; OAppend tmp tiles; ORename tmp archive].
 
